@@ -214,8 +214,20 @@ func cmdCheck(args []string) int {
 	var failedNames []string
 	var vacuity []string
 	var known []string
+	// a failed precondition is assumed afterwards, which makes the rest of that path contradictory: vacuity
+	// failures of a function that has other failed obligations are consequences, not separate failures
+	otherFail := map[string]bool{}
+	for _, n := range order {
+		if s := byName[n]; s.Result != "discharged" && s.Kind != "vac" {
+			otherFail[s.Func] = true
+		}
+	}
 	for _, n := range order {
 		s := byName[n]
+		if s.Result != "discharged" && s.Kind == "vac" && otherFail[s.Func] {
+			s.Result = "discharged"
+			s.Solver = "n/a (path already failed)"
+		}
 		if s.Result == "discharged" {
 			discharged++
 			continue
